@@ -452,4 +452,11 @@ theorem c15_dependency_cover :
     Gen.ecUncovered.filter (fun p => !ecByDesign.contains p) = pinnedStale :=
   ⟨dependency_cover, uncovered_pinned.1⟩
 
+section NonVacuity
+/-- the hypotheses of the theorems above are met by the request and library of `Props/EnvCache.lean` and this
+sequence (further instances, out-of-scope sequences and the witnesses of the pinned residue are there) -/
+example : FreshW exWorld ∧ InvW {} exLib exWorld := ⟨FreshW.ofB (by decide), (FreshW.ofB (by decide)).inv {} exLib⟩
+example : ∀ op ∈ [Op.read 0 .cookies, .copy 0, .setStr 1 cs!"HTTP_COOKIE" cs!"z=9", .read 1 .cookies, .del 0 cs!"HTTP_COOKIE", .read 0 .cookies], opWithin [.cookies] (fun _ => true) op = true := by decide
+end NonVacuity
+
 end Ombott.EnvCache
